@@ -172,7 +172,7 @@ func TestVerifC04Profiles(t *testing.T) {
 		case r = <-ch:
 		case <-time.After(3 * time.Second):
 			out.Linef("obs diverge")
-			out.Linef("viol sig=C04/mergesplit/does-not-terminate sig=profiles sizer=%s max=%d", szName, max)
+			out.Linef("viol sig=C04/mergesplit/does-not-terminate/profiles-%s max=%d", szName, max)
 			out.Linef("end")
 			out.Close()
 			os.Exit(0)
